@@ -196,7 +196,9 @@ def collision():
            ("lt4", "10.0.0.1", "10.0.0.2", 4200000001, 4200000002),
            # equal identifiers and 4-octet AS numbers on either side of AS_TRANS (23456)
            ("eq4lt", "10.0.0.2", "10.0.0.2", 64512, 4200000000), ("eq4gt", "10.0.0.2", "10.0.0.2", 4200000000, 64512),
-           ("eq4lo", "10.0.0.2", "10.0.0.2", 100, 4200000000)]
+           ("eq4lo", "10.0.0.2", "10.0.0.2", 100, 4200000000),
+           # identifiers more than 2^31 apart, on either side
+           ("farGt", "192.0.2.1", "10.0.0.1", 65001, 65002), ("farLt", "10.0.0.1", "200.0.0.1", 65001, 65002)]
     for rn, lid, rid, las, ras in rel:
         for first_conn in DIRS:            # which connection is opened first
             for first_open in DIRS:        # whose OPEN arrives first
@@ -269,6 +271,21 @@ def collision():
                 c3 = b.dial_ok()
                 b.open(c3, rid=rid).ka(c3).adv(1)
                 out.append(b.tag("collision", "keptdies", "pace").build())
+    # an inbound session was Established and ended; the next outbound handshake has no competitor
+    for lid in ("10.0.0.1", "10.0.0.9"):
+        for how in ("eof", "cease", "reset"):
+            b = Sb("col-afterin-%s-%s" % (lid, how), [peer(idleHold=sec(1))], routerID=lid)
+            b.start()
+            b.dial_refuse()
+            ci = b.establish(direction="in")
+            b.upd(ci)
+            {"eof": lambda: b.rclose(ci), "cease": lambda: b.notif(ci, 6, 2), "reset": lambda: b.rreset(ci)}[how]()
+            b.adv(1)
+            co = b.dial_ok()
+            b.open(co).ka(co).upd(co).adv(1)
+            ci2 = b.connect()
+            b.open(ci2).adv(1)
+            out.append(b.tag("collision", "afterin").build())
     # established first: KEEPALIVE on the first connection before the second OPEN
     for rn, lid, rid, las, ras in rel[:2]:
         for first in DIRS:
@@ -2147,6 +2164,24 @@ def pm_gates():
                                  step("yield"), step("release", peer="p1", call="apv-out", w=4)))
             b.adv(1).upd(co).open(ci).adv(1)
             out.append(b.tag("pmgate", "collision", *(["oneP"] if rep % 2 else [])).build())
+    # (8) PM held right after approving OpenConfirm of the connection that will lose; the remote closes that
+    #     connection (or sends Cease on it) and its OPEN on the other connection arrives meanwhile: whichever
+    #     request the PM takes first, the other connection goes on and becomes Established
+    for lid in ("10.0.0.1", "10.0.0.9"):
+        lose = "out" if lid == "10.0.0.1" else "in"
+        win = "in" if lose == "out" else "out"
+        g, k = "apv-%s" % lose, (4 if lose == "out" else 3)
+        for how in ("eof", "cease"):
+            for rep in range(4):
+                b = Sb("pmgate-loserdown-%s-%s-%d" % (lid, how, rep), [peer(gates=["%s#%d" % (g, k)])], routerID=lid)
+                b.start()
+                cs = {"out": b.dial_ok(), "in": b.connect()}
+                b.open(cs[lose])
+                down = step("rclose", conn=cs[lose]) if how == "eof" else step("send", conn=cs[lose], b=notification(6, 7))
+                b.steps.append(multi(down, step("send", conn=cs[win], b=open_msg(65002, 90, ip4("10.0.0.2"))), step("yield"),
+                                     step("release", peer="p1", call=g, w=k)))
+                b.adv(1).ka(cs[win]).upd(cs[win]).adv(1)
+                out.append(b.tag("pmgate", "collision", *(["oneP"] if rep % 2 else [])).build())
     # (7) PM held while it handles a damping error of one connection; the other connection fails too (its FSM
     #     waits to report): both belong to one incident, the hold-down is 60 s and the next one 120 s
     for first in DIRS:
